@@ -53,6 +53,20 @@ def builtOrderB (decls : List FnDecl) (user : List Edge) (built : Dag) (ranks : 
       | none => true
       | some e => e.kind != .data || !hasPath ⟨built.n, built.edges.eraseIdx i⟩ e.src e.tgt)
 
+/-! ### the same two predicates for large graphs (hundreds of functions): reachability as bit masks
+
+`reachMasks g ord` computes, for an order `ord` that lists children before their parents, one `Nat`
+per node whose bit `v` says "there is a non-empty path to `v`".  `Theorems/SpecFast.lean` proves
+that on an acyclic graph with a valid order this is `ReachP`, and that the `…FastB` predicates
+agree with `builtSoundB` / the direction half of `builtOrderB`. -/
+
+def reachMasks (g : Dag) (ord : List Nat) : List Nat :=
+  ord.foldl (fun acc u =>
+    acc.set u ((children g u).foldl (fun m c => m ||| (1 <<< c) ||| acc[c]?.getD 0) 0))
+    (List.replicate g.n 0)
+
+def maskBit (ms : List Nat) (u v : Nat) : Bool := (ms[u]?.getD 0).testBit v
+
 def isPermOfRange (l : List Nat) (n : Nat) : Bool :=
   l.length == n && (List.range n).all (fun v => decide (v ∈ l))
 
@@ -61,6 +75,30 @@ def idxOf (l : List Nat) (x : Nat) : Nat := l.findIdx (· == x)
 /-- C14: every node once, each edge's source before its target -/
 def topoOrderB (g : Dag) (l : List Nat) : Bool :=
   isPermOfRange l g.n && g.edges.all (fun e => decide (idxOf l e.src < idxOf l e.tgt))
+
+/-- `builtSoundB` with mask reachability; `topoOrd` must be a topological order of `built` (checked) -/
+def builtSoundFastB (decls : List FnDecl) (user : List Edge) (built : Dag) (topoOrd : List Nat) : Bool :=
+  let ms := reachMasks built topoOrd.reverse
+  built.n == decls.length
+  && built.edges.take user.length == user
+  && (built.edges.drop user.length).all (fun e => e.kind == .data && conflict (declOf decls e.src) (declOf decls e.tgt))
+  && user.all (fun e => e.kind != .data)
+  && topoOrderB built topoOrd
+  && (List.range built.n).all (fun u => (List.range built.n).all (fun v =>
+        u == v || !conflict (declOf decls u) (declOf decls v) || maskBit ms u v || maskBit ms v u))
+
+/-- the direction half of `builtOrderB` with mask reachability (non-redundancy is not checked here) -/
+def builtDirectionFastB (decls : List FnDecl) (user : List Edge) (built : Dag) (ranks : List Nat)
+    (topoOrd userTopoOrd : List Nat) : Bool :=
+  let U : Dag := ⟨built.n, user⟩
+  let ms := reachMasks built topoOrd.reverse
+  let us := reachMasks U userTopoOrd.reverse
+  topoOrderB built topoOrd && topoOrderB U userTopoOrd
+  && (List.range built.n).all (fun u => (List.range built.n).all (fun v =>
+      u == v || !conflict (declOf decls u) (declOf decls v) || maskBit us u v || maskBit us v u
+      || (let ru := ranks[u]?.getD 0; let rv := ranks[v]?.getD 0
+          let first := decide (ru < rv) || (ru == rv && decide (u < v))
+          if first then maskBit ms u v else maskBit ms v u)))
 
 /-- C14: `try_*` = the prefix of the full order up to and including the first failing id -/
 def tryPrefixB (full : List Nat) (fails seen : List Nat) (err : Option Nat) : Bool :=
